@@ -197,3 +197,25 @@ Proof.
     exists (((if (negb first && (last <? fd_from d))%bool then [10%N] else []) ++ fd_text d) ++ A).
     rewrite HA, <- !app_assoc. reflexivity.
 Qed.
+
+(* ---- (7) the formatter's output ------------------------------------------------------------------------------ *)
+Lemma diff_file_text_nl : forall fs n, Forall (fun m => exists x, fd_text m = x ++ [10%N]) (diff_file fs n).
+Proof.
+  assert (Hsl : forall i s e c parts, exists x, fd_text (single_line i s e c parts) = x ++ [10%N]).
+  { intros. unfold single_line. cbn [fd_text]. rewrite !app_assoc. eexists. reflexivity. }
+  induction fs as [|f r IH]; intros n; [constructor|].
+  destruct f; cbn [diff_file]; constructor; auto.
+  unfold description_diff, multi_line. cbn [fd_text]. eexists. reflexivity.
+Qed.
+
+(* Lexing the formatter's own output: block by block (one block per fragment: the empty line's EOL when Fmt printed
+   one, the fragment's canonical tokens, the closing EOL); after block i the lexer has exactly the text of the later
+   fragments left, and the closing EOL token of block i starts on line (newlines of the text of fragments 0..i) - 1. *)
+Theorem fmt_output_eol_lines fs : Forall frag_lx fs ->
+  let out := fmt_join (diff_file fs 0) true (-1) in
+  frun_lines out (new_lexer out) (entries fs 0 true (-1)) (rems (diff_file fs 0)).
+Proof.
+  intros Hlx out. apply (frun_eol_lines out _ _ (new_lexer out) [] (new_lexer_inv out)).
+  - apply (fmt_join_frun fs 0 true (-1) (new_lexer out) Hlx). reflexivity.
+  - apply rems_split. apply diff_file_text_nl.
+Qed.
